@@ -313,7 +313,7 @@ pub fn strategy() -> BoxedStrategy<Case> {
     // far tiles: the image's own transform moves it tens of thousands of texels away (a small tile repeated over a
     // huge scaled canvas); still inside the 16.16 range of image coordinates
     let far = prop_oneof![11 => Just((0i32, 0i32)), 1 => (prop_oneof![Just(0i32), 16000i32..=30000, -30000i32..=-16000], prop_oneof![Just(0i32), 16000i32..=30000, -30000i32..=-16000])];
-    (2i32..=16, 2i32..=16, prop_oneof![39 => image_probe(8, 8), 1 => big.boxed()], any::<bool>(), any::<bool>(), prop_oneof![2 => Just(1.0f32), 1 => Just(0.5f32), 1 => 0.0f32..=1.0], small_xf(), small_xf(), (0i32..=310, 0i32..=310), prop_oneof![14 => Just(1.0f32), 1 => Just(4096.0f32), 1 => Just(65536.0f32), 1 => Just(1.0f32 / 64.0)], far)
+    (2i32..=16, 2i32..=16, prop_oneof![39 => image_probe(8, 8), 1 => big.boxed()], any::<bool>(), any::<bool>(), prop_oneof![2 => Just(1.0f32), 1 => Just(0.5f32), 1 => 0.0f32..=1.0], small_xf(), small_xf(), (0i32..=310, 0i32..=310), prop_oneof![14 => Just(1.0f32), 1 => Just(4096.0f32), 1 => Just(65536.0f32), 1 => Just(1.0f32 / 64.0), 1 => Just(1.0f32 / 4096.0)], far)
         .prop_map(|(w, h, img, repeat, nearest, alpha, mut ctm, mut sxf, (bx, by), zoom, (fx, fy))| {
             sxf[4] += fx as f32;
             sxf[5] += fy as f32;
